@@ -267,7 +267,7 @@ Proof.
     + apply Skip; [rewrite Ety; reflexivity|reflexivity].
 Qed.
 
-(* ---- readImports (no catalog, no import structs) -------------------------------------------------------------------------- *)
+(* ---- readImports (no catalog) ------------------------------------------------------------------------------------------------ *)
 Lemma aft_notstruct n tab ctx r1 x rest outer stk : AFT n tab ctx r1 x rest outer stk ->
   match x with VStruct _ => False | _ => True end -> negb (r_type r1 =? TStruct) || r_is_null r1 = true.
 Proof.
@@ -278,62 +278,183 @@ Proof.
     destruct x; cbn [CONT] in C; try contradiction; destruct C as [-> _]; reflexivity.
 Qed.
 
-Lemma ril f ctx tab : TC tab ctx -> forall k body es, sp_items (sl_value ts f ctx) k body = Some es -> BY body ->
-  Forall no_struct es ->
-  forall fuel r acc e stk rest outer, (length body < fuel)%nat ->
-  ST tab r body (rest ++ outer) ((bcList, e) :: stk) -> top_ok tot stk outer ->
-  exists r4 r5, read_imports_loop NI fuel r acc = (r4, Ok acc) /\ r_err r4 = false /\
+(* what the fields of an import struct look at *)
+Lemma aft_shape n tab ctx r1 x rest outer stk : AFT n tab ctx r1 x rest outer stk ->
+  (exists nm, x = VString nm /\ r_type r1 = TString /\ r_value r1 = RString nm) \/
+  (exists z iv, x = VInt z /\ r_type r1 = TInt /\ r_value r1 = RInt iv /\ int_z iv = z /\ r_is_null r1 = false) \/
+  (exists ty, x = VNull ty /\ r_type r1 = ty /\ r_value r1 = RNil /\ r_is_null r1 = true) \/
+  ((r_type r1 =? TString) = false /\ (r_type r1 =? TInt) = false /\
+   match x with VString _ | VInt _ | VNull _ | VAnn _ _ => False | _ => True end).
+Proof.
+  intros [(Hs & (Et & Ev) & _)|(f & t & body & Rk & C & _ & _)].
+  - destruct x; try destruct Hs; cbn [vtype val_rel_s] in *;
+      try (right; right; right; rewrite Et; split; [reflexivity|split; [reflexivity|exact Logic.I]]).
+    + right; right; left. destruct Ev as [Ev Ht0]. exists t. repeat split; auto. unfold r_is_null. rewrite Ev, Et.
+      replace (t =? 0) with false by lia. reflexivity.
+    + right; left. destruct Ev as (iv & Ev & Ez). exists z, iv. repeat split; auto. unfold r_is_null. rewrite Ev. apply andb_false_r.
+    + left. exists t. auto.
+  - right; right; right. destruct Rk as [_ _ _ _ Ety Ht _ _ _ _ _]. rewrite Ety.
+    split; [unfold TString; lia|]. split; [unfold TInt; lia|]. destruct x; cbn [CONT] in C; try contradiction; exact Logic.I.
+Qed.
+
+Lemma rdl f ctx tab : TC tab ctx -> forall k body fs, sp_items (sitem ts f ctx) k body = Some fs -> BY body ->
+  forall fuel r d e stk rest outer d', (length body < fuel)%nat ->
+  ST tab r body (rest ++ outer) ((bcStruct, e) :: stk) -> top_ok tot stk outer -> rd_fold fs d = Some d' ->
+  exists r4 r5, read_import_loop NI fuel r d = (r4, Ok d') /\ r_err r4 = false /\
                 r_step_out r4 = (r5, Ok true) /\ RS tot tab r5 rest outer stk /\ RIO r5.
 Proof.
-  intros HTC. induction k as [|k IH]; intros body es Hs Hb Hns fuel r acc e stk rest outer Hfu St T.
-  { destruct body; cbn [sp_items] in Hs; inversion Hs; subst. destruct fuel as [|fu]; [lia|].
+  intros HTC. induction k as [|k IH]; intros body fs Hs Hb fuel r d e stk rest outer d' Hfu St T Hfold.
+  { destruct body; cbn [sp_items] in Hs; inversion Hs; subst. cbn [rd_fold] in Hfold. inversion Hfold; subst.
+    destruct fuel as [|fu]; [lia|].
+    destruct (st_end tab r bcStruct e stk rest outer St T) as (r4 & r5 & En & He4 & Eso & Rs5 & Rio5 & _).
+    exists r4, r5. cbn [read_import_loop]. rewrite En. auto 10. }
+  destruct body as [|c0 l0].
+  { cbn [sp_items] in Hs. inversion Hs; subst. cbn [rd_fold] in Hfold. inversion Hfold; subst.
+    destruct fuel as [|fu]; [lia|].
+    destruct (st_end tab r bcStruct e stk rest outer St T) as (r4 & r5 & En & He4 & Eso & Rs5 & Rio5 & _).
+    exists r4, r5. cbn [read_import_loop]. rewrite En. auto 10. }
+  set (l := c0 :: l0) in *. cbn [sp_items] in Hs. fold l in Hs. unfold sitem at 1 in Hs.
+  destruct (lim_varuint l) as [[sid r1]|] eqn:Ev; [|discriminate].
+  destruct (resolve_sid ctx sid) as [y|] eqn:Ey; [|discriminate].
+  destruct St as (P & Rio & Nc).
+  destruct (field3 ts Hts tot Htot PN tab ctx r l sid r1 y (rest ++ outer) bcStruct e stk HTC eq_refl Hb Ev Ey P) as (P3 & Hb1).
+  destruct (lim_varuint_layout l sid r1 [] Ev Hb) as (ds0 & Q & Hds0 & _).
+  destruct (sl_value ts f ctx r1) as [[[v|] rest']|] eqn:E; [| |discriminate].
+  - destruct (sp_items (sitem ts f ctx) k rest') as [fs'|] eqn:E2; [|discriminate]. inversion Hs; subst fs.
+    destruct (st_val tab ctx f r1 v rest' (rest ++ outer) ((bcStruct, e) :: stk) (Some (tok_of_sym y sid)) r HTC Hb1 E
+                ltac:(discriminate) P3 Rio Nc) as (r2 & En & Hf2 & A & Hbr & St2).
+    destruct (sl_value_suffix _ _ _ _ _ _ Hb1 E) as (pre & Ep & Hne).
+    destruct (aft_ctx _ _ _ _ _ _ _ _ A) as (_ & He2 & _).
+    assert (Hlen' : (length rest' + 2 <= length l)%nat).
+    { rewrite Q, Ep, !app_length. destruct pre; [contradiction|]. cbn [length]. lia. }
+    destruct fuel as [|fu]; [lia|].
+    cbn [read_import_loop]. rewrite En, He2. unfold field_text. rewrite Hf2. cbn [tok_of_sym tk_text].
+    destruct y as [t|m]; [|cbn [rd_fold] in Hfold; discriminate]. cbn [rd_fold] in Hfold.
+    assert (Go : forall d1, rd_fold fs' d1 = Some d' ->
+              exists r4 r5, read_import_loop NI fu r2 d1 = (r4, Ok d') /\ r_err r4 = false /\
+                r_step_out r4 = (r5, Ok true) /\ RS tot tab r5 rest outer stk /\ RIO r5).
+    { intros d1 H1. apply (IH rest' fs' E2 Hbr fu r2 d1 e stk rest outer d'); auto. lia. }
+    destruct (aft_shape _ _ _ _ _ _ _ _ A) as [(nm & Ex & Et & Evv)|[(z & iv & Ex & Et & Evv & Ez & Hnn)|[(ty & Ex & Et & Evv & Hnn)|(N1 & N2 & Hx)]]].
+    + rewrite Ex in Hfold. rewrite Et, Evv. change (TString =? TString) with true. change (TString =? TInt) with false. cbv iota.
+      destruct (list_eqb t (s "name"%string)); [apply Go; exact Hfold|].
+      destruct (list_eqb t (s "version"%string)); [apply Go; exact Hfold|].
+      destruct (list_eqb t (s "max_id"%string)); apply Go; exact Hfold.
+    + rewrite Ex in Hfold. rewrite Et, Evv, Hnn. change (TInt =? TString) with false. change (TInt =? TInt) with true. cbv iota.
+      assert (Ezz : match iv with I64 z0 => z0 | IBig z0 => z0 end = z) by (destruct iv; exact Ez). rewrite Ezz.
+      destruct (list_eqb t (s "name"%string)); [apply Go; exact Hfold|].
+      destruct (list_eqb t (s "version"%string)).
+      * unfold int32 in Hfold.
+        destruct ((-2147483648 <=? z)%Z && (z <=? 2147483647)%Z) eqn:E32; [|discriminate].
+        replace ((-9223372036854775808 <=? z)%Z && (z <=? 9223372036854775807)%Z) with true by lia. cbn [negb].
+        replace ((2147483647 <? z)%Z || (z <? -2147483648)%Z) with false by lia. apply Go; exact Hfold.
+      * destruct (list_eqb t (s "max_id"%string)); [|apply Go; exact Hfold].
+        unfold int64 in Hfold. destruct ((-9223372036854775808 <=? z)%Z && (z <=? 9223372036854775807)%Z); [|discriminate].
+        cbn [negb]. apply Go; exact Hfold.
+    + rewrite Ex in Hfold. rewrite Et, Evv, Hnn.
+      destruct (list_eqb t (s "name"%string)); [destruct (ty =? TString); apply Go; exact Hfold|].
+      destruct (list_eqb t (s "version"%string)); [destruct (ty =? TInt); apply Go; exact Hfold|].
+      destruct (list_eqb t (s "max_id"%string)); [|apply Go; exact Hfold].
+      destruct (ty =? TInt); [discriminate|apply Go; exact Hfold].
+    + rewrite N1, N2.
+      assert (Hf' : rd_fold fs' d = Some d').
+      { destruct (strip_ann v); try contradiction; repeat (destruct (list_eqb t _) in Hfold; try exact Hfold). }
+      destruct (list_eqb t (s "name"%string)); [apply Go; exact Hf'|].
+      destruct (list_eqb t (s "version"%string)); [apply Go; exact Hf'|].
+      destruct (list_eqb t (s "max_id"%string)); apply Go; exact Hf'.
+  - destruct f as [|f']; [discriminate|]. destruct r1 as [|tag r0]; [discriminate|].
+    destruct (pad3 ts Hts tot Htot PN tab ctx r f' tag r0 rest' (rest ++ outer) ((bcStruct, e) :: stk) _ HTC ltac:(intros Q0; discriminate) Hb1 E P3)
+      as (P1 & Hbr).
+    destruct (sl_value_suffix _ _ _ _ _ _ Hb1 E) as (pre & Ep & Hne).
+    apply (IH rest' fs Hs Hbr fuel r d e stk rest outer d'); [|split; [exact P1|split; assumption]|exact T|exact Hfold].
+    rewrite Q, Ep, !app_length in Hfu. lia.
+Qed.
+
+(* one element of the imports list *)
+Lemma read_import_any n tab ctx r1 x rest outer stk fuel o : TC tab ctx -> stk <> [] ->
+  AFT n tab ctx r1 x rest outer stk -> RIO r1 -> (n <= fuel)%nat -> match x with VAnn _ _ => False | _ => True end ->
+  rd_import x = Some o ->
+  exists r5, read_import NI fuel r1 = (r5, Ok o) /\ ST tab r5 rest outer stk.
+Proof.
+  intros HTC Hne A Rio Hfu Hna Hrd. pose proof (aft_st n tab ctx r1 x rest outer stk Hne A Rio) as St1.
+  destruct x; try (cbn [rd_import] in Hrd; inversion Hrd; subst o; exists r1; split; [|exact St1];
+                   unfold read_import; rewrite (aft_notstruct _ _ _ _ _ _ _ _ A Logic.I); reflexivity).
+  destruct A as [(Hs & _)|(f & t & body & Rk & C & Hbb & Hlt)]; [destruct Hs|].
+  cbn [CONT] in C. destruct C as [-> Hit]. pose proof Rk as [He Hf Hl Hc Ety Ht Ev Hb Ec El T].
+  destruct (step_in3 ts Hts tot Htot tab r1 13 body rest outer stk Rk) as (r2 & e & Esi & Rs2 & _ & _).
+  change (bitcode_of_high 13) with bcStruct in Rs2.
+  pose proof (si_rio r1 r2 Rio He Esi) as Rio2.
+  cbn [rd_import] in Hrd. destruct (rd_fold l d0) as [d'|] eqn:Ef; [|discriminate].
+  destruct (rdl f ctx tab HTC _ body l Hit Hbb fuel r2 d0 e stk rest outer d' ltac:(lia)
+              (rs_st tab r2 body (rest ++ outer) ((bcStruct, e) :: stk) ltac:(discriminate) Rs2 Rio2) T Ef)
+    as (r4 & r5 & Elp & He4 & Eso & Rs5 & Rio5).
+  exists r5. split; [|apply rs_st; assumption].
+  unfold read_import. rewrite Ety. unfold r_is_null. rewrite Ev, andb_false_r.
+  change (negb (13 =? TStruct) || false) with false. cbv iota. fold d0. rewrite Esi, Elp, Eso.
+  destruct (list_eqb (id_name d') [] || list_eqb (id_name d') (s "$ion"%string)); [inversion Hrd; reflexivity|].
+  destruct (id_maxid d' <? 0)%Z; [discriminate|]. inversion Hrd; reflexivity.
+Qed.
+
+Lemma strip_na v : match strip_ann v with VAnn _ _ => False | _ => True end \/ exists a b c, v = VAnn a (VAnn b c).
+Proof. destruct v; cbn [strip_ann]; try (left; exact Logic.I). destruct v; try (left; exact Logic.I). right; eauto. Qed.
+
+Lemma ril f ctx tab : TC tab ctx -> forall k body es, sp_items (sl_value ts f ctx) k body = Some es -> BY body ->
+  forall fuel r acc e stk rest outer im, (length body < fuel)%nat ->
+  ST tab r body (rest ++ outer) ((bcList, e) :: stk) -> top_ok tot stk outer -> rd_imports es acc = Some im ->
+  exists r4 r5, read_imports_loop NI fuel r acc = (r4, Ok im) /\ r_err r4 = false /\
+                r_step_out r4 = (r5, Ok true) /\ RS tot tab r5 rest outer stk /\ RIO r5.
+Proof.
+  intros HTC. induction k as [|k IH]; intros body es Hs Hb fuel r acc e stk rest outer im Hfu St T Hrd.
+  { destruct body; cbn [sp_items] in Hs; inversion Hs; subst. cbn [rd_imports] in Hrd. inversion Hrd; subst.
+    destruct fuel as [|fu]; [lia|].
     destruct (st_end tab r bcList e stk rest outer St T) as (r4 & r5 & En & He4 & Eso & Rs5 & Rio5 & _).
     exists r4, r5. cbn [read_imports_loop]. rewrite En. auto. }
   destruct body as [|tag r0].
-  { cbn [sp_items] in Hs. inversion Hs; subst. destruct fuel as [|fu]; [lia|].
+  { cbn [sp_items] in Hs. inversion Hs; subst. cbn [rd_imports] in Hrd. inversion Hrd; subst. destruct fuel as [|fu]; [lia|].
     destruct (st_end tab r bcList e stk rest outer St T) as (r4 & r5 & En & He4 & Eso & Rs5 & Rio5 & _).
     exists r4, r5. cbn [read_imports_loop]. rewrite En. auto. }
   cbn [sp_items] in Hs. destruct (sl_value ts f ctx (tag :: r0)) as [[[v|] rest']|] eqn:E; [| |discriminate].
   - destruct (sp_items (sl_value ts f ctx) k rest') as [es'|] eqn:E2; [|discriminate]. inversion Hs; subst es.
-    inversion Hns as [|? ? Hv Hns']; subst.
     destruct St as (P & Rio & Nc).
     destruct (st_val tab ctx f (tag :: r0) v rest' (rest ++ outer) ((bcList, e) :: stk) None r HTC Hb E ltac:(discriminate)
                 (to3 ts tot _ _ _ _ _ _ P eq_refl) Rio Nc) as (r1 & En & _ & A & Hbr & St1).
     destruct (sl_value_suffix _ _ _ _ _ _ Hb E) as (pre & Ep & Hne).
     destruct fuel as [|fu]; [lia|].
-    destruct (IH rest' es' E2 Hbr Hns' fu r1 acc e stk rest outer) as (r4 & r5 & E4 & He4 & Eso & Rs5 & Rio5);
-      [rewrite Ep, app_length in Hfu; destruct pre; [contradiction|cbn [length] in Hfu; lia]|exact St1|exact T|].
-    exists r4, r5. split; [|auto]. cbn [read_imports_loop]. rewrite En.
-    unfold read_import. rewrite (aft_notstruct _ tab ctx r1 (strip_ann v) _ _ _ A Hv). exact E4.
+    cbn [rd_imports] in Hrd. destruct (rd_import (strip_ann v)) as [o|] eqn:Eo; [|discriminate].
+    assert (Hna : match strip_ann v with VAnn _ _ => False | _ => True end).
+    { destruct A as [(Hs' & _)|(f' & t & body & _ & C & _)]; destruct (strip_ann v); try exact Logic.I; [destruct Hs'|destruct C]. }
+    destruct (read_import_any _ tab ctx r1 (strip_ann v) rest' (rest ++ outer) ((bcList, e) :: stk) (S fu) o HTC ltac:(discriminate) A
+                (proj1 (proj2 St1)) ltac:(cbn [length] in Hfu |- *; lia) Hna Eo) as (r2 & Eri & St2).
+    assert (Hfu' : (length rest' < fu)%nat) by (rewrite Ep, app_length in Hfu; destruct pre; [contradiction|cbn [length] in Hfu; lia]).
+    cbn [read_imports_loop]. rewrite En, Eri.
+    destruct o as [i|]; [apply (IH rest' es' E2 Hbr fu r2 (acc ++ [i]) e stk rest outer im Hfu' St2 T Hrd)
+                        |apply (IH rest' es' E2 Hbr fu r2 acc e stk rest outer im Hfu' St2 T Hrd)].
   - destruct f as [|f']; [discriminate|]. destruct St as (P & Rio & Nc).
     destruct (pre2_pad ts Hts tot Htot PN tab ctx r f' tag r0 rest' (rest ++ outer) ((bcList, e) :: stk) HTC eq_refl Hb E P) as (P1 & Hbr).
     destruct (sl_value_suffix _ _ _ _ _ _ Hb E) as (pre & Ep & Hne).
-    apply (IH rest' es Hs Hbr Hns fuel r acc e stk rest outer); [|split; [exact P1|split; assumption]|exact T].
+    apply (IH rest' es Hs Hbr fuel r acc e stk rest outer im); [|split; [exact P1|split; assumption]|exact T|exact Hrd].
     rewrite Ep, app_length in Hfu. lia.
 Qed.
 
 Lemma resolve3 ctx y : SYS3 ctx -> resolve_sid ctx 3 = Some y -> y = SymText ist_text.
 Proof.
-  unfold SYS3, resolve_sid. intros H. change (3 =? 0) with false. cbv iota.
-  destruct (N.of_nat (length ctx) <? 3); [discriminate|].
-  change (N.to_nat (3 - 1)) with 2%nat. rewrite H. intros Q. inversion Q. reflexivity.
+  unfold SYS3, resolve_sid. intros H. change (3 =? 0) with false. cbv iota. change (3 - 1) with 2. rewrite H.
+  intros Q. inversion Q. reflexivity.
 Qed.
 
-Lemma read_imports_any n tab ctx r3 x rest outer stk fuel : TC tab ctx -> SYS3 ctx -> stk <> [] ->
-  AFT n tab ctx r3 x rest outer stk -> RIO r3 -> (n <= fuel)%nat ->
-  (forall es, x = VList es -> Forall no_struct es) ->
-  exists r5, read_imports NI fuel r3 = (r5, Ok (imps_of tab x)) /\ ST tab r5 rest outer stk /\ r_lst r5 = Some tab.
+Lemma read_imports_any n tab ctx r3 x rest outer stk fuel im : TC tab ctx -> SYS3 ctx -> stk <> [] ->
+  AFT n tab ctx r3 x rest outer stk -> RIO r3 -> (n <= fuel)%nat -> imps_of tab x = Some im ->
+  exists r5, read_imports NI fuel r3 = (r5, Ok im) /\ ST tab r5 rest outer stk /\ r_lst r5 = Some tab.
 Proof.
-  intros HTC H3 Hne A Rio Hfu Hns. pose proof (aft_st n tab ctx r3 x rest outer stk Hne A Rio) as St3.
+  intros HTC H3 Hne A Rio Hfu Him. pose proof (aft_st n tab ctx r3 x rest outer stk Hne A Rio) as St3.
   destruct (aft_ctx _ _ _ _ _ _ _ _ A) as (_ & He3 & Hl3).
-  assert (Skip : (r_type r3 =? TSymbol) = false -> (negb (r_type r3 =? TList) || r_is_null r3 = true) -> imps_of tab x = [] ->
-                 exists r5, read_imports NI fuel r3 = (r5, Ok (imps_of tab x)) /\ ST tab r5 rest outer stk /\ r_lst r5 = Some tab).
+  assert (Skip : (r_type r3 =? TSymbol) = false -> (negb (r_type r3 =? TList) || r_is_null r3 = true) -> im = [] ->
+                 exists r5, read_imports NI fuel r3 = (r5, Ok im) /\ ST tab r5 rest outer stk /\ r_lst r5 = Some tab).
   { intros Q1 Q2 Ex. exists r3. unfold read_imports. rewrite Q1, Q2, Ex. auto. }
   destruct A as [(Hs & (Et & Ev) & Rs & Hsy)|(f & t & body & Rk & C & Hbb & Hlt)].
-  - destruct x; try destruct Hs; cbn [vtype val_rel_s] in *;
-      try (apply Skip; [rewrite Et; reflexivity|rewrite Et; reflexivity|reflexivity]).
+  - destruct x; try destruct Hs; cbn [vtype val_rel_s imps_of] in *;
+      try (apply Skip; [rewrite Et; reflexivity|rewrite Et; reflexivity|inversion Him; reflexivity]).
     + (* a typed null *)
-      destruct Ev as [Ev Ht0]. exists r3. unfold read_imports. rewrite He3, Ev. cbn [imps_of].
+      destruct Ev as [Ev Ht0]. inversion Him; subst im. exists r3. unfold read_imports. rewrite He3, Ev.
       assert (Hn : r_is_null r3 = true) by (unfold r_is_null; rewrite Ev, Et; replace (t =? 0) with false by lia; reflexivity).
       rewrite Hn, orb_true_r. destruct (r_type r3 =? TSymbol); auto.
     + (* a symbol *)
@@ -344,38 +465,37 @@ Proof.
                       = match y with SymText t => list_eqb t ist_text | SymSid _ => false end).
       { destruct (Z.of_N sid =? 3)%Z eqn:E3; [|destruct y; reflexivity].
         assert (sid = 3) by lia. subst sid. rewrite (resolve3 ctx y H3 Ery). cbn [orb]. symmetry. apply list_eqb_refl'. }
-      rewrite Htest. destruct y as [t|m]; cbn [imps_of].
-      * destruct (list_eqb t ist_text).
+      rewrite Htest. destruct y as [t|m].
+      * destruct (list_eqb t ist_text); inversion Him; subst im.
         -- destruct tab as [|t0]; cbn [append_imps]; auto.
         -- change (negb (TSymbol =? TList)) with true. cbn [orb]. auto.
-      * change (negb (TSymbol =? TList)) with true. cbn [orb]. auto.
+      * inversion Him; subst im. change (negb (TSymbol =? TList)) with true. cbn [orb]. auto.
   - pose proof Rk as [He Hf Hl Hc Ety Ht Ev Hb Ec El T].
-    destruct x; cbn [CONT] in C; try contradiction; destruct C as [-> Hit].
+    destruct x; cbn [CONT] in C; try contradiction; destruct C as [-> Hit]; cbn [imps_of] in Him.
     + (* a list *)
       destruct (step_in3 ts Hts tot Htot tab r3 11 body rest outer stk Rk) as (r4 & e & Esi & Rs4 & _ & _).
       change (bitcode_of_high 11) with bcList in Rs4.
       pose proof (si_rio r3 r4 Rio He Esi) as Rio4.
       assert (Hlen : (length body < fuel)%nat) by lia.
-      destruct (ril f ctx tab HTC _ body l Hit Hbb (Hns l eq_refl) fuel r4 [] e stk rest outer Hlen
-                  (rs_st tab r4 body (rest ++ outer) ((bcList, e) :: stk) ltac:(discriminate) Rs4 Rio4) T)
+      destruct (ril f ctx tab HTC _ body l Hit Hbb fuel r4 [] e stk rest outer im Hlen
+                  (rs_st tab r4 body (rest ++ outer) ((bcList, e) :: stk) ltac:(discriminate) Rs4 Rio4) T Him)
         as (r6 & r5 & Elp & He6 & Eso & Rs5 & Rio5).
       exists r5. split; [|split; [apply rs_st; assumption|apply Rs5]].
       unfold read_imports. rewrite Ety. change (11 =? TSymbol) with false. cbv iota. unfold r_is_null. rewrite Ev, andb_false_r.
       change (negb (11 =? TList) || false) with false. cbv iota. rewrite Esi, Elp, Eso. reflexivity.
-    + apply Skip; [rewrite Ety; reflexivity|rewrite Ety; reflexivity|reflexivity].
-    + apply Skip; [rewrite Ety; reflexivity|rewrite Ety; reflexivity|reflexivity].
+    + apply Skip; [rewrite Ety; reflexivity|rewrite Ety; reflexivity|inversion Him; reflexivity].
+    + apply Skip; [rewrite Ety; reflexivity|rewrite Ety; reflexivity|inversion Him; reflexivity].
 Qed.
 
 (* ---- the fields of the table struct ----------------------------------------------------------------------------------------- *)
 Lemma rll f ctx tab : TC tab ctx -> SYS3 ctx -> forall k body fs, sp_items (sitem ts f ctx) k body = Some fs -> BY body ->
-  imp_lists_ok fs ->
   forall fuel r imps syms fi fsy e stk rest outer res, (length body < fuel)%nat ->
   ST tab r body (rest ++ outer) ((bcStruct, e) :: stk) -> top_ok tot stk outer ->
   lst_fold tab fs imps syms fi fsy = Some res ->
   exists r4 r5, read_lst_loop NI fuel r imps syms fi fsy = (r4, Ok res) /\ r_err r4 = false /\
                 r_step_out r4 = (r5, Ok true) /\ RS tot tab r5 rest outer stk /\ RIO r5 /\ r_field r5 = None /\ r_annots r5 = [].
 Proof.
-  intros HTC H3. induction k as [|k IH]; intros body fs Hs Hb Hok fuel r imps syms fi fsy e stk rest outer res Hfu St T Hfold.
+  intros HTC H3. induction k as [|k IH]; intros body fs Hs Hb fuel r imps syms fi fsy e stk rest outer res Hfu St T Hfold.
   { destruct body; cbn [sp_items] in Hs; inversion Hs; subst. cbn [lst_fold] in Hfold. inversion Hfold; subst.
     destruct fuel as [|fu]; [lia|].
     destruct (st_end tab r bcStruct e stk rest outer St T) as (r4 & r5 & En & He4 & Eso & Rs5 & Rio5 & F5 & A5).
@@ -399,7 +519,6 @@ Proof.
     destruct (aft_ctx _ _ _ _ _ _ _ _ A) as (_ & He2 & _).
     assert (Hlen' : (length rest' + 2 <= length l)%nat).
     { rewrite Q, Ep, !app_length. destruct pre; [contradiction|]. cbn [length]. lia. }
-    assert (Hok' : imp_lists_ok fs') by (intros y' v' es Hin; apply (Hok y' v' es); right; exact Hin).
     destruct fuel as [|fu]; [lia|].
     cbn [read_lst_loop]. rewrite En, He2. unfold field_text. rewrite Hf2. cbn [tok_of_sym tk_text].
     destruct y as [t|m]; [|cbn [lst_fold] in Hfold; discriminate]. cbn [lst_fold] in Hfold.
@@ -408,31 +527,30 @@ Proof.
     + destruct fsy; [discriminate|].
       destruct (read_symbols_any _ tab ctx r2 (strip_ann v) rest' (rest ++ outer) ((bcStruct, e) :: stk) (S fu) HTC ltac:(discriminate) A
                   (proj1 (proj2 St2)) Hn1) as (r3 & Ers & St3 & _).
-      rewrite Ers. apply (IH rest' fs' E2 Hbr Hok' fu r3 imps (syms_of (strip_ann v)) fi true e stk rest outer res); auto. lia.
+      rewrite Ers. apply (IH rest' fs' E2 Hbr fu r3 imps (syms_of (strip_ann v)) fi true e stk rest outer res); auto. lia.
     + destruct (list_eqb t (s "imports"%string)) eqn:Eim.
-      * destruct fi; [discriminate|].
-        destruct (read_imports_any _ tab ctx r2 (strip_ann v) rest' (rest ++ outer) ((bcStruct, e) :: stk) (S fu) HTC H3 ltac:(discriminate) A
-                    (proj1 (proj2 St2)) Hn1) as (r3 & Eri & St3 & _).
-        { intros es Ees. apply (Hok (SymText t) v es); [left; reflexivity|exact Eim|exact Ees]. }
-        rewrite Eri. apply (IH rest' fs' E2 Hbr Hok' fu r3 (imps_of tab (strip_ann v)) syms true fsy e stk rest outer res); auto. lia.
-      * apply (IH rest' fs' E2 Hbr Hok' fu r2 imps syms fi fsy e stk rest outer res); auto. lia.
+      * destruct fi; [discriminate|]. destruct (imps_of tab (strip_ann v)) as [im|] eqn:Eim'; [|discriminate].
+        destruct (read_imports_any _ tab ctx r2 (strip_ann v) rest' (rest ++ outer) ((bcStruct, e) :: stk) (S fu) im HTC H3 ltac:(discriminate) A
+                    (proj1 (proj2 St2)) Hn1 Eim') as (r3 & Eri & St3 & _).
+        rewrite Eri. apply (IH rest' fs' E2 Hbr fu r3 im syms true fsy e stk rest outer res); auto. lia.
+      * apply (IH rest' fs' E2 Hbr fu r2 imps syms fi fsy e stk rest outer res); auto. lia.
   - destruct f as [|f']; [discriminate|]. destruct r1 as [|tag r0]; [discriminate|].
     destruct (pad3 ts Hts tot Htot PN tab ctx r f' tag r0 rest' (rest ++ outer) ((bcStruct, e) :: stk) _ HTC ltac:(intros Q0; discriminate) Hb1 E P3)
       as (P1 & Hbr).
     destruct (sl_value_suffix _ _ _ _ _ _ Hb1 E) as (pre & Ep & Hne).
-    apply (IH rest' fs Hs Hbr Hok fuel r imps syms fi fsy e stk rest outer res); [|split; [exact P1|split; assumption]|exact T|exact Hfold].
+    apply (IH rest' fs Hs Hbr fuel r imps syms fi fsy e stk rest outer res); [|split; [exact P1|split; assumption]|exact T|exact Hfold].
     rewrite Q, Ep, !app_length in Hfu. lia.
 Qed.
 
 (* ---- the raw item that is a local symbol table ------------------------------------------------------------------------------- *)
 Lemma lst3 tab ctx k r tag r0 ys fs rest' : INV tab ctx -> TC tab ctx -> BY (tag :: r0) ->
   sl_value ts (S k) ctx (tag :: r0) = Some (Some (VAnn ys (VStruct fs)), rest') ->
-  lst_like (VAnn ys (VStruct fs)) = true -> lst_ok ctx fs = true ->
+  lst_like (VAnn ys (VStruct fs)) = true -> forall ctx', apply_lst ctx fs = Some ctx' -> lst_ok fs ctx' = true ->
   PRE2 ts tot (r_next_inner ts) tab r (tag :: r0) [] [] ->
-  exists tab', INV tab' (apply_lst ctx fs) /\ N.of_nat (length (apply_lst ctx fs)) < two63 /\
+  exists tab', INV tab' ctx' /\ ctx_size ctx' < two63 /\
                PRE2 ts tot (r_next_inner ts) tab' r rest' [] [] /\ BY rest'.
 Proof.
-  intros Hinv HTC Hb Hsp Hll Hok P. pose proof (to3 ts tot _ _ _ _ _ _ P eq_refl) as P3.
+  intros Hinv HTC Hb Hsp Hll ctx' Hap Hok P. pose proof (to3 ts tot _ _ _ _ _ _ P eq_refl) as P3.
   destruct (sl_value_cases ts Hts tot Htot k ctx tag r0 _ rest' Hsp) as [([] & _)|(len & r1 & body & HH & Htk & C)].
   destruct C as [(_ & vs & Q & _)|[(_ & vs & Q & _)|[(_ & fs' & Q & _)|
                  (E14 & H3 & alen & r2 & ab & vb & ys' & x & vt & vr & Ev & Ha0 & Etk2 & Hys & -> & Hvt & Hx & Q)]]]; try discriminate.
@@ -472,10 +590,10 @@ Proof.
     - intros _. split; [exact (bs_state _ _ _ _ _ Hb')|exact Ec]. }
   assert (HeS : r_err rS = false) by (subst rS; rsimpl; exact He).
   pose proof (si_rio rS r2' RioS HeS Esi) as Rio2.
-  destruct (lst_ok_new tab ctx fs Hinv Hok) as (imps & syms & Hfold & Hinv' & Hsz & Hlok).
+  destruct (lst_ok_new tab ctx fs ctx' Hinv Hap Hok) as (imps & syms & Hfold & Hinv' & Hsz).
   assert (Hfu : (length sbody < fuel)%nat).
   { cbn [app length] in HK. rewrite app_nil_r in HK. cbn [length] in HK. lia. }
-  destruct (rll k' ctx tab HTC (inv_sys3 _ _ Hinv) _ sbody fs Hit Hbs Hlok fuel r2' [] [] false false e [] rest' [] (imps, syms) Hfu
+  destruct (rll k' ctx tab HTC (inv_sys3 _ _ Hinv) _ sbody fs Hit Hbs fuel r2' [] [] false false e [] rest' [] (imps, syms) Hfu
               (rs_st tab r2' sbody (rest' ++ []) [(bcStruct, e)] ltac:(discriminate) Rs2 Rio2) Logic.I Hfold)
     as (r4 & r5 & Elp & He4 & Eso & Rs5 & Rio5 & F5 & A5).
   exists (new_tab imps syms). split; [exact Hinv'|]. split; [exact Hsz|]. split; [|exact Hbr].
